@@ -4,11 +4,11 @@
 # the replays directory are not touched). meta.json may name another property's check in "check_with" (the change was
 # written against one property and is caught by the check of another) or "none" (kept, confirmed, and not detected). One line per change: DETECTED / MISSED / NOAPPLY. Worktrees are removed at the end.
 cd /verif
-pat=${1:-.}; workers=${2:-2}
+pat=${1:-.}; workers=${2:-2}; tag=$$
 ids=$(ls seeded | grep -E "$pat")
 run_worker() {
   w=$1; shift
-  wt=/tmp/mutrepo$w
+  wt=/tmp/mutrepo-$tag-$w   # (the process id keeps two invocations out of each other's worktrees)
   git -C /repo worktree remove --force $wt >/dev/null 2>&1
   git -C /repo worktree add -q --detach $wt HEAD || exit 1
   i=0
@@ -22,7 +22,7 @@ run_worker() {
     out=$(VERIF_ALT_REPO=$wt ./check $prop quick 2>&1); rc=$?
     if [ $rc -eq 1 ]; then echo "DETECTED $id $(echo "$out" | grep -m1 '^VIOLATION' | sed 's/.*replay=.*\///' | cut -c1-100)"; else echo "MISSED   $id rc=$rc"; fi
   done
-  git -C /repo worktree remove --force $wt; rm -rf /verif/.work/alt-mutrepo$w
+  git -C /repo worktree remove --force $wt; rm -rf /verif/.work/alt-mutrepo-$tag-$w
 }
 for w in $(seq 0 $((workers-1))); do run_worker $w & done
 wait
